@@ -321,6 +321,8 @@ def kepler_step (ecc m : Num) (s : Num × Num × Num) : Sum (Num × Num × Num) 
 /-- `kepler_equation(eccentricity, mean_anomaly)` → `(E, v)` as Angles (degrees).
     `.error .other` = the fuel of the loop model is exhausted (never seen; the step halves `d`). -/
 def kepler_equation (ecc mean_anomaly : Num) : PyRes (Num × Num) :=
+  -- if eccentricity >= 1.0: raise ValueError("Invalid eccentricity: Orbit must be elliptic")
+  if ple 1.0 ecc then .error .valueError else
   -- m = mean_anomaly.rad(); f = copysign(1.0, m); m = abs(m) / (2.0 * pi); m = (m - iint(m)) * 2.0 * pi * f
   let m := angRad mean_anomaly
   let f := geo_copysign1 m
